@@ -102,8 +102,12 @@ def gen(seed, idx, tier):
         scn["drive"]["currents"] = {"kind": rnd.choice(["const", "const_callable"]), "I": I}
     elif cls == "epsilon>1":
         ex = rnd.choice([0.5, 1e-2, 1e-6])
-        if rnd.random() < 0.5:
+        r_ = rnd.random()
+        if r_ < 0.4:
             scn["drive"]["epsilon"] = {"kind": "const", "v": 1.0 + ex}
+        elif r_ < 0.65:
+            # a plain per-site callable: the python int 1 on one half of the device, 1 + excess on the other
+            scn["drive"]["epsilon"] = {"kind": "int_step", "side": rnd.choice([1, -1]), "lo": 1, "hi": 1.0 + ex}
         else:
             scn["drive"]["epsilon"] = {"kind": rnd.choice(["spatial", "scalar_spatial"]), "amp": -ex, "k": [1.0, 0.5], "base": 1.0}
         defect["excess"] = ex
